@@ -1513,6 +1513,7 @@ def oracle_program(prog, rng=None, stats=None):
                     check_state(s, ref, cls, "filter")
                 else:
                     pol_now = s.particle_objects_list()
+                    unset_pdg = name in pmodel.NEEDS_PDG and any(p.pdg != p.pdg for ev in pol_now for p in ev)
                     spacelike = name == "spacetime_rapidity_cut" and any(pmodel.spacelike(p) for ev in pol_now for p in ev)
                     before = deep_state(s)
                     try:
@@ -1547,7 +1548,7 @@ def oracle_program(prog, rng=None, stats=None):
                             return fails      # the call was accepted although the argument is outside the documented domain
                         if out is not s:
                             raise Fail(f"{CLSNAME[cls]}-filter-return", f"{name} did not return self")
-                        if stats is not None and name in pmodel.NEEDS_PDG and any(p.pdg != p.pdg for ev in pol_now for p in ev):
+                        if stats is not None and unset_pdg:
                             stats[f"pdg-unset/{name}"] = stats.get(f"pdg-unset/{name}", 0) + 1
                         if stats is not None:
                             stats[f"call-form/{step.get('form', 'pos')}"] = stats.get(f"call-form/{step.get('form', 'pos')}", 0) + 1
